@@ -126,6 +126,16 @@ Theorem C05_malformed_offsets :
 Proof. exact malformed_offsets. Qed.
 Print Assumptions C05_malformed_offsets.
 
+(** A seconds field of 60 (accepted in any minute as leap-second notation) denotes the second after :59: the
+    element is ready from that second on and not at :59 itself. *)
+Theorem C05_second_60_is_the_second_after_59 :
+  forall y m d h mi negative colon oh om,
+    valid_civil y m d h mi 59 -> valid_offset oh om ->
+    parse_datetime (render_to y m d h mi 60 ++ [SP] ++ render_offset negative colon oh om)
+    = Some (instant y m d h mi 59 negative oh om + 1).
+Proof. exact parse_rendered_leap_second. Qed.
+Print Assumptions C05_second_60_is_the_second_after_59.
+
 (** White space inside the quotes is not part of the wall-clock time: ASCII white space in front of the year and
     behind the seconds is skipped, and any run of it between the date and the time reads as the single blank - the
     parse result (success or failure, and the instant) is that of the plain value, whatever the offset string. *)
